@@ -21,7 +21,7 @@ let parse_kind (s : string) : rkind =
   | _ -> failwith ("kind " ^ s)
 
 let parse_fault (s : string) : fault =
-  match s with "0" -> FNone | "1" -> FStore | "2" -> FIdp4xx | "3" -> FIdp5xx | "4" -> FIdpErr | _ -> failwith "fault"
+  match s with "0" -> FNone | "1" -> FStore | "2" -> FIdp4xx | "3" -> FIdp5xx | "4" -> FIdpErr | "5" -> FIdp4xx (* 4xx with a non-JSON body: every 4xx is a rejection *) | _ -> failwith "fault"
 
 let parse_event (toks : string list) : event =
   match toks with
